@@ -61,8 +61,9 @@ type OConfig struct {
 	PDup       int    `json:"p_dup"`   // per mille
 	PCrash     int    `json:"p_crash"` // per mille per step
 	PPartition int    `json:"p_partition"`
-	QuietSteps int    `json:"quiet_steps"`         // trailing steps without faults (progress diagnostic)
-	AckCrash   bool   `json:"ack_crash,omitempty"` // biased fault schedule "a follower acknowledges, the leader commits, the follower crashes before it learns the commit index, the leader is cut off" (adversary.go)
+	QuietSteps int    `json:"quiet_steps"`          // trailing steps without faults (progress diagnostic)
+	AckCrash   bool   `json:"ack_crash,omitempty"`  // biased fault schedule "a follower acknowledges, the leader commits, the follower crashes before it learns the commit index, the leader is cut off" (adversary.go)
+	VoteCrash  bool   `json:"vote_crash,omitempty"` // biased fault schedule "a replica grants its vote, the candidate becomes leader on it, the voter crashes before it stores anything else" (adversary2.go)
 	// sync mode
 	Begin, End uint64
 	PFail      int `json:"p_fail"`
@@ -103,6 +104,7 @@ func Generate(prop string, r *sim.Rand, tier string) *sim.Plan {
 		cfg.PPartition = []int{1, 3, 6}[r.Intn(3)]
 	}
 	cfg.AckCrash = cfg.Kind == "raft" && cfg.Nodes == 3 && r.Chance(0.35)
+	cfg.VoteCrash = cfg.Kind == "raft" && cfg.Nodes == 3 && !cfg.AckCrash && r.Chance(0.45)
 	return &sim.Plan{Config: sim.MustJSON(cfg)}
 }
 
@@ -443,6 +445,7 @@ type cluster struct {
 	lastFaultStep   int
 	step            int
 	adv             *ackCrash
+	adv2            *voteCrash
 	logEntries      map[[3]uint64]*logEntry // (leader, message term, index) -> batch the leader holds at that index during that term
 	leaderCommit    map[[2]uint64]uint64    // (leader, message term) -> highest commit index that leader announced in that term
 }
@@ -1001,6 +1004,9 @@ func runCluster(cfg OConfig, seed uint64, res *sim.Result, tp *tape, base string
 	if cfg.AckCrash && cfg.Kind == "raft" && cfg.Nodes == 3 {
 		c.adv = &ackCrash{}
 	}
+	if cfg.VoteCrash && !cfg.AckCrash && cfg.Kind == "raft" && cfg.Nodes == 3 {
+		c.adv2 = &voteCrash{}
+	}
 	t0 := time.Now()
 	faultsUntil := cfg.Steps - cfg.QuietSteps
 	for c.step = 0; c.step < cfg.Steps; c.step++ {
@@ -1011,6 +1017,9 @@ func runCluster(cfg OConfig, seed uint64, res *sim.Result, tp *tape, base string
 		}
 		faults := c.step < faultsUntil
 		if faults && c.advStep() {
+			continue
+		}
+		if faults && c.adv2Step() {
 			continue
 		}
 		if c.step == faultsUntil {
